@@ -1131,7 +1131,10 @@ def _obviously_different(a: HplExpression, b: HplExpression) -> bool:
         return True
     if isinstance(a, HplBinaryOperator):
         op: BinaryOperatorDefinition = a.operator
-        assert not isinstance(a.operand1, HplLiteral)  # due to simplification
+        if isinstance(a.operand1, HplLiteral):
+            # literals are only pushed to the RHS of commutative operators,
+            # e.g., (1 - x) and (2 ** x) keep their literal on the LHS
+            return False
         if op.is_plus or op.is_minus:
             if a.operand1 == b and isinstance(a.operand2, HplLiteral):
                 assert a.operand2.value != 0  # due to simplification
